@@ -36,7 +36,15 @@ func genField(t *rapid.T, provs []pop.ProvSpec) pop.FieldSpec {
 		rs := rapid.SliceOfNDistinct(rapid.SampledFrom([]string{"a", "b", "c", "zz", "*"}), n, n, rapid.ID[string]).Draw(t, "rets")
 		return pop.FieldSpec{Type: typ, Tag: fmt.Sprintf(`func:"Comp,returns=%s%s"`, strings.Join(rs, " "), opt)}
 	default:
-		return pop.FieldSpec{Type: typ, Tag: fmt.Sprintf(`wire:"%s"`, opt)}
+		// now and then the (empty) name is not written literally: a placeholder that resolves to nothing
+		val := ""
+		switch rapid.IntRange(0, 7).Draw(t, "emptyname") {
+		case 0:
+			val = "${c06.absent.name:}"
+		case 1:
+			val = "${c06.absent.name}"
+		}
+		return pop.FieldSpec{Type: typ, Tag: fmt.Sprintf(`wire:"%s%s"`, val, opt)}
 	}
 }
 
@@ -75,6 +83,14 @@ func TestTypeDirected(t *testing.T) {
 		}
 		s.Finish(t)
 		in := s.Instantiate()
+		// an observing post-processor that sorts in front of the built-in wiring processors (it answers "nothing to
+		// populate here" like the library's embeddable default does)
+		switch rapid.IntRange(0, 3).Draw(t, "observer") {
+		case 0:
+			in.Extra = append(in.Extra, &graph.PriorityObsPP{ObsPP: graph.ObsPP{Tag: "c06p", Log: in.Log, NoBudget: true}})
+		case 1:
+			in.Extra = append(in.Extra, &graph.OrderedObsPP{ObsPP: graph.ObsPP{Tag: "c06o", Log: in.Log, OrderV: 1, NoBudget: true}})
+		}
 		if rapid.IntRange(0, 2).Draw(t, "embeddedpoints") == 0 {
 			in.Extra = append(in.Extra, &EmbConsumer{}, &PlainT{N: 1})
 		}
